@@ -292,7 +292,12 @@ class LessParser(object):
     def p_block_replace(self, p):
         """ block_decl               : identifier t_semicolon
         """
-        m = p[1].parse(None)
+        try:
+            m = p[1].parse(None)
+        except SyntaxError as e:
+            self.handle_error(e, p.lineno(2))
+            p[0] = None
+            return
         block = self.scope.blocks(m.raw())
         if block:
             p[0] = block.copy_inner(self.scope)
@@ -392,7 +397,12 @@ class LessParser(object):
     def p_call_mixin(self, p):
         """ call_mixin                : identifier t_popen mixin_args_list t_pclose t_semicolon
         """
-        p[1].parse(None)
+        try:
+            p[1].parse(None)
+        except SyntaxError as e:
+            self.handle_error(e, p.lineno(4))
+            p[0] = None
+            return
         p[0] = Deferred(p[1], p[3], p.lineno(4))
 
     def p_mixin_args_arguments(self, p):
